@@ -13,15 +13,17 @@ open Rio.Marker
 
 /-! ### Substitution: sequential longest-name-first replace = simultaneous longest-match substitution -/
 
-/-- **substitution** ("longer names first, so a name never clobbers a longer one").  `replaceVars` is
-`StaticOrDynamic::replace` (sequential `str::replace("@name", value)`), `sortByLen` the stable sort of
-`Rule::variables`, `subst` the one-pass simultaneous substitution in which every `@` followed by known names is
-a reference to the LONGEST one.  Hypotheses: no name and no value contains `@`, and `noJoin`: after the
-substitution no `@` (a stray one, or the head of a replaced reference `@n`) is followed by text that reads as a
-(longer) known name.  All three are needed: see the `…_fails` witnesses below. -/
-theorem substitution (vs : List (Str × Str)) (t : Str)
+/-- **substitution, for every lawful longest-first order** ("longer names first, so a name never clobbers a longer
+one").  `replaceVars` is `StaticOrDynamic::replace` (sequential `str::replace("@name", value)`), `sortBy before` a
+stable sort whose comparator is a strict longest-first order (`LawfulBefore`), `subst` the one-pass simultaneous
+substitution in which every `@` followed by known names is a reference to the LONGEST one.  Hypotheses: no name and
+no value contains `@`, and `noJoin`: after the substitution no `@` (a stray one, or the head of a replaced reference
+`@n`) is followed by text that reads as a (longer) known name.  All three are needed: see the `…_fails` /
+witness theorems below. -/
+theorem substitution_lawful (before : Str → Str → Bool) (hb : LawfulBefore before)
+    (vs : List (Str × Str)) (t : Str)
     (hnames : namesNoAt vs = true) (hvals : valuesNoAt vs = true) (hjoin : noJoin vs t = true) :
-    replaceVars t (sortByLen vs) = subst vs t := by
+    replaceVars t (sortBy before vs) = subst vs t := by
   have hn : ∀ p ∈ vs, '@' ∉ p.1 := by
     intro p hp
     simp only [namesNoAt, List.all_eq_true] at hnames
@@ -42,17 +44,28 @@ theorem substitution (vs : List (Str × Str)) (t : Str)
       simp only [names, List.mem_map] at this
       obtain ⟨p, hp, rfl⟩ := this
       exact hn p hp
-  have h := foldl_replace_render idEsc (sortByLen vs) (parse (names vs) t) (sorted_sortByLen vs)
-    (fun p hp => hn p ((mem_sortByLen p vs).mp hp)) (fun p hp => hv p ((mem_sortByLen p vs).mp hp))
-    hclean (fun n hn' => (mem_names_sortByLen vs n).mpr (parse_refs _ _ n hn'))
-    (noJoinP_sortByLen idEsc vs _ ((noJoinItems_iff idEsc vs _).mp hjoin))
-  rw [render_parse, fill_sortByLen] at h
+  have h := foldl_replace_render idEsc (sortBy before vs) (parse (names vs) t) (sorted_sortBy hb vs)
+    (fun p hp => hn p ((mem_sortBy p vs).mp hp)) (fun p hp => hv p ((mem_sortBy p vs).mp hp))
+    hclean (fun n hn' => (mem_names_sortBy vs n).mpr (parse_refs _ _ n hn'))
+    (noJoinP_sortBy hb idEsc vs _ ((noJoinItems_iff idEsc vs _).mp hjoin))
+  rw [render_parse, fill_sortBy hb] at h
   exact h
+
+/-- The comparator of `Rule::variables` (after repair 96f3afa: `key_b.len().cmp(&key_a.len()).then_with(||
+key_a.cmp(key_b))`) is a lawful longest-first order; so is the one of `MarkerString::new` (length only). -/
+theorem code_orders_lawful : LawfulBefore varBefore ∧ LawfulBefore lenBefore :=
+  ⟨lawful_varBefore, lawful_lenBefore⟩
+
+/-- **substitution** for the code's order: `sortVars` = the final sort of `Rule::variables`. -/
+theorem substitution (vs : List (Str × Str)) (t : Str)
+    (hnames : namesNoAt vs = true) (hvals : valuesNoAt vs = true) (hjoin : noJoin vs t = true) :
+    replaceVars t (sortVars vs) = subst vs t :=
+  substitution_lawful varBefore lawful_varBefore vs t hnames hvals hjoin
 
 /-- The statement of DESIGN §5-C10 (hypotheses NoAtInValues and NoStrayAt only). -/
 def SubstitutionDesignStatement : Prop :=
   ∀ (vs : List (Str × Str)) (t : Str), namesNoAt vs = true → valuesNoAt vs = true → noStrayAt vs t = true →
-    replaceVars t (sortByLen vs) = subst vs t
+    replaceVars t (sortVars vs) = subst vs t
 
 /-- It is false: target `@id@year` with `id = 7`, `id2 = 9`, `year = 2024` gives `9024` instead of `72024` — the
 value of `@year` joins the text `@id` into `@id2`, and `@id2` is replaced before `@id` (finding `join`; the same
@@ -67,7 +80,7 @@ theorem substitution_design_statement_fails : ¬ SubstitutionDesignStatement := 
 /-- What the code computes on that input, and what the simultaneous substitution gives. -/
 theorem join_witness :
     let vs : List (Str × Str) := [(['i','d'], ['7']), (['i','d','2'], ['9']), (['y','e','a','r'], ['2','0','2','4'])]
-    replaceVars ['@','i','d','@','y','e','a','r'] (sortByLen vs) = ['9','0','2','4'] ∧
+    replaceVars ['@','i','d','@','y','e','a','r'] (sortVars vs) = ['9','0','2','4'] ∧
     subst vs ['@','i','d','@','y','e','a','r'] = ['7','2','0','2','4'] ∧ noJoin vs ['@','i','d','@','y','e','a','r'] = false := by
   decide
 
@@ -76,14 +89,14 @@ theorem substitution_fails_without_sort :
     let vs : List (Str × Str) := [(['i','d'], ['7']), (['i','d','2'], ['9'])]
     namesNoAt vs = true ∧ valuesNoAt vs = true ∧ noJoin vs ['@','i','d','2'] = true ∧
     replaceVars ['@','i','d','2'] vs = ['7','2'] ∧
-    replaceVars ['@','i','d','2'] (sortByLen vs) = ['9'] ∧ subst vs ['@','i','d','2'] = ['9'] := by
+    replaceVars ['@','i','d','2'] (sortVars vs) = ['9'] ∧ subst vs ['@','i','d','2'] = ['9'] := by
   decide
 
 /-- Excluded point 1: a value containing `@shorter` is substituted again (`valuesNoAt` is needed). -/
 theorem value_with_at_is_resubstituted :
     let vs : List (Str × Str) := [(['a','b'], ['@','c']), (['c'], ['z'])]
     namesNoAt vs = true ∧ valuesNoAt vs = false ∧
-    replaceVars ['/','@','a','b'] (sortByLen vs) = ['/','z'] ∧ subst vs ['/','@','a','b'] = ['/','@','c'] := by
+    replaceVars ['/','@','a','b'] (sortVars vs) = ['/','z'] ∧ subst vs ['/','@','a','b'] = ['/','@','c'] := by
   decide
 
 /-- Excluded point 2: a stray `@` in front of a reference whose value is empty reads as a new reference
@@ -91,30 +104,45 @@ theorem value_with_at_is_resubstituted :
 theorem stray_at_joins :
     let vs : List (Str × Str) := [(['a','b'], []), (['c','d'], ['x'])]
     namesNoAt vs = true ∧ valuesNoAt vs = true ∧ noJoin vs ['@','@','a','b','c','d'] = false ∧
-    replaceVars ['@','@','a','b','c','d'] (sortByLen vs) = ['x'] ∧ subst vs ['@','@','a','b','c','d'] = ['@','c','d'] := by
+    replaceVars ['@','@','a','b','c','d'] (sortVars vs) = ['x'] ∧ subst vs ['@','@','a','b','c','d'] = ['@','c','d'] := by
   decide
 
-/-- Under the hypotheses of `substitution` the result does not depend on the order (nor on repetitions after
-the first entry of a name) of the variable list — in particular not on the iteration order of the HashMap of
-captured markers. -/
-theorem substitution_order_irrelevant (vs vs' : List (Str × Str)) (t : Str)
+/-- Under the hypotheses of `substitution` the result depends neither on the order (or on repetitions after the
+first entry of a name) of the variable list — e.g. the iteration order of the HashMap of captured markers — nor
+on WHICH lawful longest-first order the sort uses (how equal-length names are arranged). -/
+theorem substitution_order_irrelevant (before before' : Str → Str → Bool)
+    (hb : LawfulBefore before) (hb' : LawfulBefore before') (vs vs' : List (Str × Str)) (t : Str)
     (hn : ∀ m, m ∈ names vs ↔ m ∈ names vs') (hl : ∀ n, vs.lookup n = vs'.lookup n)
     (hnames : namesNoAt vs = true) (hvals : valuesNoAt vs = true) (hjoin : noJoin vs t = true)
     (hnames' : namesNoAt vs' = true) (hvals' : valuesNoAt vs' = true) :
-    replaceVars t (sortByLen vs) = replaceVars t (sortByLen vs') := by
+    replaceVars t (sortBy before vs) = replaceVars t (sortBy before' vs') := by
   have hjoin' : noJoin vs' t = true := by
     rw [noJoin, noJoinItems_iff] at hjoin ⊢
     rw [← parse_congr hn t]
     exact noJoinP_congr idEsc hn hl _ hjoin
-  rw [substitution vs t hnames hvals hjoin, substitution vs' t hnames' hvals' hjoin', subst_congr hn hl]
+  rw [substitution_lawful before hb vs t hnames hvals hjoin,
+    substitution_lawful before' hb' vs' t hnames' hvals' hjoin', subst_congr hn hl]
 
-/-- … and without them it does: two equal-length names, one value containing a reference to the other
-(finding `hashmap-order`). -/
-theorem order_matters_outside_hypotheses :
-    let vs : List (Str × Str) := [(['a'], ['@','b']), (['b'], ['z'])]
-    let vs' : List (Str × Str) := [(['b'], ['z']), (['a'], ['@','b'])]
-    replaceVars ['@','a'] (sortByLen vs) = ['z'] ∧ replaceVars ['@','a'] (sortByLen vs') = ['@','b'] := by
-  decide
+/-- The other tie-break for equal-length names (descending names): also a lawful longest-first order. -/
+def varBeforeDesc (a b : Str) : Bool := decide (blen b < blen a) || (decide (blen a = blen b) && strLt b a)
+
+/-- Outside the hypotheses the arrangement of equal-length names matters: names `a`, `b`, the value of `a`
+containing `@b`.  Before repair 96f3afa the arrangement was the iteration order of a HashMap (the fixed finding
+`hashmap-order`: two calls could disagree); the code's order now always gives the first result — which is still
+not the simultaneous substitution `@b` (known finding `value-contains-at`). -/
+theorem tie_break_matters_outside_hypotheses :
+    let vs : List (Str × Str) := [(['b'], ['z']), (['a'], ['@','b'])]
+    LawfulBefore varBeforeDesc ∧
+    replaceVars ['@','a'] (sortVars vs) = ['z'] ∧ replaceVars ['@','a'] (sortBy varBeforeDesc vs) = ['@','b'] ∧
+    subst vs ['@','a'] = ['@','b'] := by
+  refine ⟨⟨?_, ?_, ?_⟩, by decide, by decide, by decide⟩
+  · intro a b h
+    simp only [varBeforeDesc, Bool.or_eq_true, Bool.and_eq_true, decide_eq_true_eq] at h
+    rcases h with h | h <;> omega
+  · intro a b h
+    simp only [varBeforeDesc, Bool.or_eq_false_iff, Bool.and_eq_false_iff, decide_eq_false_iff_not] at h
+    omega
+  · intro a; simp [varBeforeDesc, strLt_irrefl]
 
 /-! ### The regex of a template is its token view -/
 
@@ -567,7 +595,7 @@ example :
     let vs : List (Str × Str) := [(['a'], ['1']), (['a','b'], ['x','y']), (['a','b','c'], ['f','o','o'])]
     let t : Str := ['/','@','a','b','c','-','@','a','b','-','@','a','-','@','a','b','c','d','-','@','a','b','x','-','@','q','@']
     namesNoAt vs = true ∧ valuesNoAt vs = true ∧ noJoin vs t = true ∧
-    replaceVars t (sortByLen vs) = ['/','f','o','o','-','x','y','-','1','-','f','o','o','d','-','x','y','x','-','@','q','@'] := by
+    replaceVars t (sortVars vs) = ['/','f','o','o','-','x','y','-','1','-','f','o','o','d','-','x','y','x','-','@','q','@'] := by
   decide
 
 /-- `regex_is_tokens` on a template with a meta character, two markers sharing a prefix and a stray `@`. -/
